@@ -94,6 +94,31 @@ def _pairs_worker_after_inline(pairs):
         del keep
 
 
+def _reported_states():
+    """the 32 states, each after it was used for a comparison that failed and for rendering that failure (what a caller does
+    that goes on comparing with its state after a failed example: the report must not change the state it is given)"""
+    checker, _, _ = _mods()
+    sts = [runstate(i) for i in range(32)]
+    for st in sts:
+        try:
+            checker.check_got_vs_want('spam\n', 'eggs\n', runstate=st)
+        except checker.GotWantException as ex:
+            ex.output_difference(st, colored=False)
+            ex.output_difference(st, colored=True)
+            ex.output_repr_difference(st)
+    return sts
+
+
+def _pairs_worker_after_report(pairs):
+    """the same comparison with RuntimeState objects that were handed to GotWantException's report functions before"""
+    global _STATES
+    _STATES = _reported_states()
+    try:
+        return _pairs_worker(pairs)
+    finally:
+        _STATES = None
+
+
 def analyse(ctx, pairs, results, where):
     """compare verdict vectors, then evaluate the monotonicity clause on the implementation"""
     n_match = 0
@@ -244,6 +269,10 @@ def run(ctx):
     analyse(ctx, sample, results_p, 'after an inline update of another RuntimeState')
     ctx.evaluations += len(sample) * 32
     ctx.count('pairs_after_inline_update_elsewhere', len(sample))
+    results_r = [r for ch in common.pmap(_pairs_worker_after_report, chunks) for r in ch]
+    analyse(ctx, sample, results_r, 'with states that were handed to the failure report (output_difference) before')
+    ctx.evaluations += len(sample) * 32
+    ctx.count('pairs_after_failure_report_on_same_state', len(sample))
 
     # ---- wildcard stratum: wants built from 2..3 literal pieces around '...' ------------
     pieces = ['', 'a', 'b', 'ab', 'a b', 'b\na']
@@ -379,6 +408,9 @@ def replay(path):
         return c02.replay_gvw(d, path, 'C05')
     if 'got' in d and 'want' in d:
         keep = _pollute() if 'inline update' in str(d.get('where', '')) else None
+        if 'failure report' in str(d.get('where', '')):
+            global _STATES
+            _STATES = _reported_states()
         b = impl_bits(d['got'], d['want'])
         a = common.model_batch([('check_output_allflags', d['got'], d['want'])], raw=True)[0]
         print('got=%r want=%r\n impl =%s\n model=%s' % (d['got'], d['want'], b, a))
